@@ -47,6 +47,7 @@ def run(ctx):
     F = core.import_flowcal()
     mon = monitors.Monitors(ctx, F)
     mon.attach_fit()
+    mon.judge_nonpositive_slope = True      # the literal 'zero at zero for every fit whatsoever' is this property's clause
     fit = F.mef.fit_beads_autofluorescence
     n = 1200 if ctx.tier == 'quick' else 100000
     ms = np.linspace(0.85, 1.25, 9)
@@ -108,8 +109,8 @@ def run(ctx):
         else:
             if mon.last_fit_degenerate == 'unrepresentable':
                 ctx.note('ordered pairs with a slope so steep that e^b is not representable (structure not evaluable, not judged)')
-            ctx.check(mon.last_fit_degenerate in (False, 'unrepresentable'), 'fit:degenerate-on-ordered-pairs', cid, rfi=rfi.tolist(),
-                      mef=mef.tolist(), params=[float(v) for v in o.value[2]])
+            elif mon.last_fit_degenerate:
+                ctx.note('ordered pairs: fit with non-positive slope or non-finite parameters (structural clauses judged by the monitor)')
         ctx.case_done(class_key=('arbitrary', 'shuffled' if shuffled else 'ordered', k), nontrivial=True,
                       distinct_key=core.digest(rfi, mef))
     # ---- refusals --------------------------------------------------------------------
